@@ -162,6 +162,13 @@ func TestRaceCollection(t *testing.T) {
 				_, _ = c.Add("", fm(int32(i)), resource.WithGenIDIfAbsent(), resource.WithIDCallback(func(id string) { _ = len(id) }), resource.WithCreatedCallback(func() {}))
 			},
 			func(g, i int) {
+				// an item whose change time is the zero time (the writer said so): reads stay reads
+				_, _ = c.Update(ids[i%3], fm(int32(i)), resource.WithCreateIfAbsent(), resource.WithWriteTime(time.Time{}))
+				for _, m := range c.List() {
+					touch(m)
+				}
+			},
+			func(g, i int) {
 				// a write that is rejected after its id was generated: an update of "whatever id you come up with" without
 				// create-if-absent (documented to fail), and a create whose precondition fails
 				_, _ = c.Update("", fm(int32(i)), resource.WithGenIDIfAbsent())
